@@ -55,3 +55,14 @@ Example C04_rm_nonvacuous :
   | Err _ => False end.
 Proof. vm_compute. repeat split; try reflexivity; [right; reflexivity|eexists; reflexivity]. Qed.
 Print Assumptions C04_rm_nonvacuous.
+
+(* scoped edits, over the definitions REGENERATED on every run from cli/manipulations.py (tools/layers2v.py): a scoped
+   edit rewrites one collected let layer and writes all layers back; every other layer keeps all its fields — bindings,
+   trivia before and after the body, render order, comment after `let` — and its position *)
+From L Require Import LayerRec.
+From Dyn Require Import LayersGen LayersGenProps.
+Theorem C04_scoped_frame : forall e i f, wf e -> (forall l, nonempty (l_scope l) = true -> nonempty (l_scope (f l)) = true) ->
+  collect (write (upd i f (collect e))) = upd i f (collect e) /\
+  forall j, (j <> i -> nth_error (collect (write (upd i f (collect e)))) j = nth_error (collect e) j)%nat.
+Proof. exact LayersGenProps.edit_one_layer. Qed.
+Print Assumptions C04_scoped_frame.
